@@ -1495,17 +1495,15 @@ Qed.
 
 (* ================================================================== reading categories back *)
 
-Definition seen_text (v : str) : str := match v with [] => s_None | _ => v end.
-Lemma pt_label_seen q : pt_label q = seen_text (pt_v q).
-Proof. unfold pt_label, seen_text. destruct (pt_v q); reflexivity. Qed.
+Lemma pt_label_seen q : pt_label q = pt_v q.
+Proof. reflexivity. Qed.
 
 Definition cat_numeric (f : list cat_tree) (D : nat) : bool :=
   Nat.eqb D 1 && match f with t :: _ => is_numeric_label (tree_label t) | [] => false end.
 (** The text python-pptx reports for a category label of chart data with categories [f]
-    of depth [D]: what the writer puts into c:v (line ends normalised by the XML parser),
-    except that an empty c:v reads as the word None. *)
+    of depth [D]: what the writer puts into c:v, line ends normalised by the XML parser. *)
 Definition cat_text (d1904 : bool) (f : list cat_tree) (D : nat) (l : label) : str :=
-  seen_text (xml_norm (if cat_numeric f D then label_numstr d1904 l else label_str l)).
+  xml_norm (if cat_numeric f D then label_numstr d1904 l else label_str l).
 
 Lemma find_pt_enum_below l : forall k j, j < k -> find_pt j (rev (enum_pts k l)) = None.
 Proof.
@@ -1647,7 +1645,7 @@ Proof.
       { destruct f as [|t f]; [congruence|]. simpl. pose proof (leaves_pos t). pose proof (leaves_f_nonneg f). lia. }
       lia. }
     rewrite Hsrc, Hn.
-    assert (Hp : map (fun path => tau (last path dlabel)) (paths_f f) = map seen_text texts).
+    assert (Hp : map (fun path => tau (last path dlabel)) (paths_f f) = map (fun v : str => v) texts).
     { unfold texts, sg. rewrite (expand_segs_f f (S (S D2)) (S D2)) by auto. rewrite !map_map.
       apply map_ext_in. intros path Hpath.
       pose proof (paths_f_length f (S (S D2)) Hall) as HF. rewrite Forall_forall in HF.
@@ -1658,7 +1656,7 @@ Proof.
       replace path with (rev r ++ [x]) by (rewrite <- (rev_involutive path), E; reflexivity).
       simpl in H. rewrite app_nth2; rewrite rev_length; [|lia].
       replace (S D2 - length r)%nat with 0%nat by lia. reflexivity. }
-    rewrite Hp. rewrite <- (map_length seen_text texts) at 1.
+    rewrite Hp. rewrite <- (map_length (fun v : str => v) texts) at 1.
     apply map_seq_eq. intros i x Hi. rewrite Nat.add_0_l.
     rewrite nth_error_map in Hi. destruct (nth_error texts i) as [v|] eqn:Ev; [|discriminate].
     injection Hi as <-.
@@ -2259,31 +2257,24 @@ Proof.
   destruct z; simpl; try discriminate. unfold dec_of_N. apply digits_nonempty. right. discriminate.
 Qed.
 
-Lemma seen_text_nonempty v : v <> [] -> seen_text v = v.
-Proof. destruct v; [congruence|reflexivity]. Qed.
-
-(** A string label without carriage return that is not empty is reported verbatim. *)
-Lemma cat_text_str b f D s : cat_numeric f D = false -> no_cr s = true -> s <> [] ->
+(** A string label without carriage return is reported verbatim (the empty string too). *)
+Lemma cat_text_str b f D s : cat_numeric f D = false -> no_cr s = true ->
   cat_text b f D (LStr s) = s.
 Proof.
-  intros Hn Hc Hs. unfold cat_text. rewrite Hn. cbn [label_str].
-  rewrite xml_norm_no_cr by exact Hc. now apply seen_text_nonempty.
+  intros Hn Hc. unfold cat_text. rewrite Hn. cbn [label_str]. now apply xml_norm_no_cr.
 Qed.
 (** A number label is reported as the text Python gives for the number. *)
-Lemma cat_text_num b f t : cat_numeric f 1 = true -> no_cr t = true -> t <> [] ->
+Lemma cat_text_num b f t : cat_numeric f 1 = true -> no_cr t = true ->
   cat_text b f 1 (LNum t) = t.
 Proof.
-  intros Hn Hc Hs. unfold cat_text. rewrite Hn. cbn [label_numstr].
-  rewrite xml_norm_no_cr by exact Hc. now apply seen_text_nonempty.
+  intros Hn Hc. unfold cat_text. rewrite Hn. cbn [label_numstr]. now apply xml_norm_no_cr.
 Qed.
 (** A date label is reported as its serial number with one decimal. *)
 Lemma cat_text_date b f y m d : cat_numeric f 1 = true ->
   cat_text b f 1 (LDate y m d) = show_Z (excel_serial b y m d) ++ s_dot0.
 Proof.
   intros Hn. unfold cat_text. rewrite Hn. cbn [label_numstr].
-  rewrite xml_norm_no_cr by (rewrite no_cr_app, no_cr_show_Z; reflexivity).
-  apply seen_text_nonempty. intros H. apply app_eq_nil in H. destruct H as [H _].
-  now apply show_Z_nonempty in H.
+  apply xml_norm_no_cr. rewrite no_cr_app, no_cr_show_Z. reflexivity.
 Qed.
 
 (** The serial date number: days since 1899-12-31, plus one after 1900-02-28 (day 59), so
@@ -2333,13 +2324,15 @@ Proof.
   split; [vm_compute; reflexivity|]. vm_compute. discriminate.
 Qed.
 
-(** A category whose label is the empty string is reported as the word None. *)
-Lemma empty_label_refuted : exists ct f sers c p, write ct (DCat f None sers) = Ok c /\ ch_plots c = [p] /\
-  plot_cat_labels p <> map (fun t => label_str (tree_label t)) f /\ plot_cat_labels p = [s_None; [98%N]].
+(** Regression (fixed in python-pptx fc4e9fce): a category whose label is the empty string
+    used to be reported as the word None; it is reported as the empty string. *)
+Lemma empty_label_regression : exists ct f sers c p, write ct (DCat f None sers) = Ok c /\ ch_plots c = [p] /\
+  f = [CatNode (LStr []) []; CatNode (LStr [98%N]) []] /\
+  plot_cat_labels p = map (fun t => label_str (tree_label t)) f /\ plot_cat_labels p = [[]; [98%N]] /\
+  plot_flattened p = [[[]]; [[98%N]]].
 Proof.
   exists 57, [CatNode (LStr []) []; CatNode (LStr [98%N]) []], [w_ser [115%N] [Some [49%N]]].
-  eexists. eexists. split; [vm_compute; reflexivity|]. split; [reflexivity|].
-  split; [vm_compute; discriminate|vm_compute; reflexivity].
+  eexists. eexists. split; [vm_compute; reflexivity|]. repeat split.
 Qed.
 
 (** replace_data fails on a chart made without series, and on a chart all of whose series
